@@ -225,6 +225,9 @@ func runC04(p *Prog, r *Report) {
 			assume := []string{"next(range(recv.contexts))#0"}
 			fnpGone := func(env map[string]int64) bool { return env[c+".failNoPeers"] != 0 && env["len(recv.pipes)"] == 0 }
 			carriedOut := func(env map[string]int64) bool { return env[c+".lastPipe"] == env[pd] && env[c+".reqMsg"] != 0 }
+			// a context's back pointer c.s is the socket the loop runs on
+			predAliases = map[string]string{"len(" + c + ".s.pipes)": "len(recv.pipes)"}
+			defer func() { predAliases = nil }()
 			if pd == "" {
 				r.Bad(R, "pipe-loss-exact", p.InstrPos(resends[0].In), "cannot identify the departing pipe in the guards of the re-send")
 			} else {
